@@ -147,6 +147,17 @@ func (s *Set) AddRange(begin, end rune) {
 		node.Forward = endNode
 		endNode.Backward = node
 	}
+	// Merge ranges that touch, so that equal sets have equal representations.
+	for node := s.Head.Forward; node != nil && node.Forward != nil && node.Forward.Forward != nil; {
+		next := node.Forward
+		if node.End+1 >= next.Begin {
+			node.End = max(node.End, next.End)
+			node.Forward = next.Forward
+			next.Forward.Backward = node
+		} else {
+			node = next
+		}
+	}
 }
 
 // Has tests if a set has a rune.
